@@ -6,7 +6,9 @@ from common import *
 
 ID = 'C12'
 PKG = 'hashio'
-ROOTS = [MOD + '/hashio.' + n for n in ('VerifC12Writers', 'VerifC12Readers', 'VerifC12Unknown')] + [MOD + '/control.' + n for n in ('VerifC12Verify', 'VerifC12BadHash')]
+PKG_OF = {'VerifC12Verify': 'control', 'VerifC12BadHash': 'control', 'VerifC12Truncated': 'control'}
+REPLAY_TIMEOUT_MS = 120000
+ROOTS = [MOD + '/hashio.' + n for n in ('VerifC12Writers', 'VerifC12Readers', 'VerifC12Source', 'VerifC12Unknown')] + [MOD + '/control.' + n for n in ('VerifC12Verify', 'VerifC12BadHash', 'VerifC12Truncated')]
 BOUNDS = {'quick': dict(L=3), 'thorough': dict(L=5)}
 META = dict(
     functions_encoded=['hashio.GetHash', 'NewHasher', '(*Hasher).Name/Write/Size/Sum', 'NewHasherWriter(s)', 'NewHasherReader(s)', 'io.MultiWriter / io.TeeReader / io.ReadFull (from SSA)',
@@ -35,6 +37,12 @@ def jobs(tier):
                     k = (7 * n + 3 * c1 + c2) % len(sels)
                     use = [sels[(k + 11 * i) % len(sels)] for i in range(6)]
                 js.append(dict(name='io_%d_%d_%d' % (n, c1, c2), kind='io', n=n, c1=c1, c2=c2, sels=use))
+    for n in range(1, L + 1):
+        for c1 in range(n + 1):
+            for c2 in range(c1, n + 1):
+                js.append(dict(name='source_%d_%d_%d' % (n, c1, c2), kind='source', n=n, c1=c1, c2=c2))
+    for kind in range(4):
+        js.append(dict(name='truncated_%d' % kind, kind='truncated', k=kind))
     js.append(dict(name='unknown', kind='unknown'))
     for kind in range(8):
         for n, m in (itertools.product(range(3), range(3)) if tier == 'thorough' else ((0, 0), (1, 1), (2, 1), (1, 0))):
@@ -55,6 +63,21 @@ def run_job(env, job):
                     rs.append(run_harness(env, PKG, fn, [content, job['c1'], job['c2'], sel[0], sel[1], sel[2], single], [], unwind=64,
                                           sample='%s: %d symbolic bytes cut at %d/%d, algorithms %r%s' % (fn, job['n'], job['c1'], job['c2'], sel, ' (single constructor)' if single else '')))
         return merge_results(rs)
+    if k == 'source':
+        rs = []
+        content = symstr('c', job['n'])
+        for sel, single in (((2, -1), True), ((2, -1), False), ((3, 0), False), ((1, 2), False)):
+            rs.append(run_harness(env, PKG, 'VerifC12Source', [content, job['c1'], job['c2'], sel[0], sel[1], single, z3.Bool('eofWithData')], [], unwind=64,
+                                  sample='chunked source (%d bytes cut at %d/%d), last chunk with or without io.EOF (symbolic), algorithms %r' % (job['n'], job['c1'], job['c2'], sel)))
+        return merge_results(rs)
+    if k == 'truncated':
+        rs = []
+        for n in (0, 1):
+            for cut in (1, 2):
+                content = symstr('c', n)
+                rs.append(run_harness(env, 'control', 'VerifC12Truncated', [job['k'], content, cut, False], [], unwind=400, timeout_ms=300000,
+                                      sample='entry kind %d: recorded hash = true digest of %d symbolic bytes minus its last %d byte(s)' % (job['k'], n, cut)))
+        return merge_results(rs)
     if k == 'unknown':
         rs = []
         for n in range(0, 7):
@@ -71,6 +94,16 @@ def run_job(env, job):
         rs.append(run_harness(env, 'control', 'VerifC12BadHash', [job['k'], r], [in_set(c, bytes(range(0x21, 0x7f))) for c in r], unwind=400,
                               sample='entry kind %d with a recorded hash of %d arbitrary printable characters' % (job['k'], n)))
     return merge_results(rs)
+
+
+def replay_args(c):
+    # digests are uninterpreted in the encoding: for the truncated-hash obligation the native replay searches for
+    # content whose real digest has the zero tail the solver assumed
+    if c['func'] == 'VerifC12Truncated':
+        a = list(c['args'])
+        a[3] = True
+        return a
+    return c['args']
 
 
 def validation_calls(env, seed):
